@@ -5,6 +5,8 @@
     m1 <fn> <val>            fn ∈ sin cos tan asin acos atan exp log sqrt abs floor ceil round trunc
     m2 pow|atan2 <val> <val>
     mx max|min <val>*
+    mxo max|min <val>*       every argument is an object whose valueOf returns <val>; answer <result>;<mask of
+                             the arguments whose valueOf was called>
     isNaN <val> | isFinite <val>
     enc uri|comp <sv> | dec uri|comp <sv> | escape <sv> | unescape <sv>
 
@@ -86,16 +88,6 @@ def fn1? : String → Option Fn1
 def reply (m s : String) (dev : String) : String := m ++ " " ++ s ++ " " ++ dev
 def boolOut (b : Bool) : String := if b then "true" else "false"
 
-/-- Dev region: Math.round computed as floor(x + 0.5) — the addition rounds -/
-def devRound (x : FV) : Bool :=
-  x = .fin false (2^53 - 1) (-54) ||
-  (match x with
-   | .fin _ m e => e = 0 && decide (2^52 ≤ m) && decide (m < 2^53) && m % 2 = 1
-   | _ => false)
-
-/-- Dev region: Math.pow(1, NaN) — Go's Pow(1, y) = 1 for any y -/
-def devPow (x y : FV) : Bool := eqNum x one && isNaN y
-
 /-- Dev region: Math.pow(x, y) with subnormal x > 0 and fractional y inherits the amd64 Log defect -/
 def devPowLog (x y : FV) : Bool :=
   match x, y with
@@ -130,33 +122,15 @@ def hasLone : List Nat → Bool
     else hasLone (v :: rest)
   | [u] => 0xD800 ≤ u ∧ u < 0xE000
 
-def hasPair : List Nat → Bool
-  | [] => false
-  | u :: v :: rest =>
-    if 0xD800 ≤ u ∧ u < 0xDC00 ∧ 0xDC00 ≤ v ∧ v < 0xE000 then true else hasPair (v :: rest)
-  | [_] => false
-
-def isHexU (c : Nat) : Bool := isHex c
-/-- the text `%uDxyz` with x ∈ 8..F: an escape of a surrogate code unit -/
-def hasSurrogateEscape : List Nat → Bool
-  | 37 :: 117 :: a :: b :: c :: d :: rest =>
-    ((a = 68 ∨ a = 100) && (b = 56 ∨ b = 57 ∨ (65 ≤ b ∧ b ≤ 70) ∨ (97 ≤ b ∧ b ≤ 102)) && isHexU c && isHexU d)
-      || hasSurrogateEscape (117 :: a :: b :: c :: d :: rest)
-  | _ :: t => hasSurrogateEscape t
-  | [] => false
-
 def joinDev (ds : List String) : String :=
   if ds.isEmpty then "-" else ",".intercalate ds
 
 def devStr (op : String) (v : SV) : String :=
   let lone := match v with | .u16 u => hasLone u | .go _ => false
-  let us := svUnits v
   let d0 := if lone && op != "enc" then ["lone_surrogate_input"] else []
-  let d1 := if op == "escape" && us.contains 64 then ["escape_at"] else []
-  let d2 := if op == "escape" && hasPair us then ["escape_astral"] else []
-  let d3 := if op == "unescape" && us.any (· ≥ 128) then ["unescape_nonascii"] else []
-  let d4 := if op == "unescape" && hasSurrogateEscape us then ["unescape_surrogate"] else []
-  joinDev (d0 ++ d1 ++ d2 ++ d3 ++ d4)
+  -- an ESCAPED surrogate that stays unpaired in the result (the result is a Go string: it becomes U+FFFD)
+  let d1 := if op == "unescape" && hasLone (Spec.unescape (unitsOfBytes v.string)) then ["unescape_lone_surrogate"] else []
+  joinDev (d0 ++ d1)
 
 def modelStr (o : Option (List Nat)) : String := strOut (o.map unitsOfBytes)
 
@@ -194,13 +168,13 @@ partial def handle (ws : List String) : String :=
         | "floor" => reply (exactOut (mathFloor x)) (exactOut (Spec.floor x)) "-"
         | "ceil" => reply (exactOut (mathCeil x)) (exactOut (Spec.ceil x)) "-"
         | "trunc" => reply (exactOut (mathTrunc x)) (exactOut (Spec.trunc x)) "-"
-        | "round" => reply (exactOut (mathRound x)) (exactOut (Spec.round x)) (if devRound x then "round_half_add" else "-")
+        | "round" => reply (exactOut (mathRound x)) (exactOut (Spec.round x)) "-"
         | _ => "bad-op"
   | ["m2", "pow", a, b] =>
     match num? a, num? b with
     | some x, some y =>
       reply (approxOut (mathPow lib x y)) (approxOut ((Spec.powTable x y).getD (refPow x y)))
-        (if devPow x y then "pow_one_nan" else if devPowLog x y then "log_subnormal" else "-")
+        (if devPowLog x y then "log_subnormal" else "-")
     | _, _ => "bad-op"
   | ["m2", "atan2", a, b] =>
     match num? a, num? b with
@@ -215,6 +189,17 @@ partial def handle (ws : List String) : String :=
   | "mx" :: "min" :: ts =>
     match allNums ts with
     | some l => reply (exactOut (mathMin l)) (exactOut (Spec.min l)) "-"
+    | none => "bad-op"
+  | "mxo" :: op :: ts =>
+    -- every argument is an object whose valueOf returns the given primitive; answer = result;call-mask
+    match allNums ts with
+    | some l =>
+      let mask (n : Nat) : String := String.ofList (List.replicate n '1' ++ List.replicate (l.length - n) '0')
+      match (if op = "max" then some (mathMax l, Spec.max l) else if op = "min" then some (mathMin l, Spec.min l) else none) with
+      | some (m, sp) =>
+        reply (exactOut m ++ ";" ++ mask (maxMinConverted l)) (exactOut sp ++ ";" ++ mask (Spec.maxMinConverted l))
+          (if l.dropLast.any isNaN then "maxmin_tonumber_skipped" else "-")
+      | none => "bad-op"
     | none => "bad-op"
   | ["isNaN", a] =>
     match val? a with
